@@ -281,6 +281,14 @@ func vFilterStr(f Filter) string {
 
 func (s *vC04Sys) observe(h []string) {
 	mkey := s.Key()
+	canonBefore := vCanonMeta(s.idx)
+	defer func() {
+		// searching must not modify the index (e.g. by combining into a stored bitmap)
+		s.c.Evaluations++
+		if after := vCanonMeta(s.idx); after != canonBefore {
+			s.c.Violation("search-modified-index", "", s.cfgS, h, fmt.Sprintf("index state before the queries [%s] after [%s]", canonBefore, after))
+		}
+	}()
 	// (0) empty filter list = all live documents
 	s.c.Evaluations++
 	if got, err := s.run(vC04Query{}); err != nil {
@@ -497,7 +505,7 @@ func vC04Cause(f Filter, tag string) string {
 	return c
 }
 
-var vC04BasisPref = []string{"s eq x", "b eq true", "i gte 0", "f lt 0.3", "s exists <nil>", "i not_exists <nil>", "s ne y", "f exists <nil>", "b ne true", "i eq 7"}
+var vC04BasisPref = []string{"s in [x]", "s eq y", "b eq true", "i gte 0", "f lt 0.3", "s exists <nil>", "i not_exists <nil>", "s ne y", "f exists <nil>", "b ne true", "i eq 7"}
 
 func vC04Singles() []Filter {
 	var out []Filter
